@@ -228,19 +228,20 @@ class SymSeq:
     """list/tuple of symbolic length: arr: z3 Array(Int -> elem sort), n: z3 Int length (>= 0).
     Arrays + length instead of z3 Seq: index reasoning stays in LIA+arrays and models of long lists are cheap.
     The object is a mutable cell (append/pop rebind arr, n) so that aliases see updates."""
-    __slots__ = ('arr', 'n', 'elem', 'facts')
+    __slots__ = ('arr', 'n', 'elem', 'facts', 'tag')
 
-    def __init__(self, arr, n, elem, facts=None):
+    def __init__(self, arr, n, elem, facts=None, tag=None):
         self.arr = arr
         self.n = n
         self.elem = elem     # Kind
         self.facts = facts   # optional enumeration facts (see lib.symmap_keys)
+        self.tag = tag       # 'bytearray' for a bytearray (elements 0..255)
 
     def __repr__(self):
         return 'SymSeq<n=%s>' % (self.n,)
 
     def copy(self):
-        return SymSeq(self.arr, self.n, self.elem, self.facts)
+        return SymSeq(self.arr, self.n, self.elem, self.facts, self.tag)
 
     def assign(self, other):
         self.arr, self.n, self.facts = other.arr, other.n, other.facts
